@@ -41,6 +41,41 @@ fn intents(script: &Value) -> (Vec<Intent>, Vec<(u64, u64)>) {
     }
     (out, units)
 }
+thread_local! { static GAP_PATTERN: std::cell::Cell<Option<bool>> = std::cell::Cell::new(None); }
+/// Does the code consume the scripted draws of an accepted gap-phase add the way the mechanism spec says (first gap,
+/// next gap, slot)?  Probed once on a sampler with k = 4 at the phase switch: the three typed draws must be consumed
+/// exactly and the four scripted slot draws must lead to four different reservoirs.  ScriptRng cannot see which
+/// distribution a word is wanted for, so with another order of draws the scripted unit value would not be the one the
+/// code turned into its gap, and the deterministic gap clause of C05 (P_Reservoir) must not be evaluated.
+pub fn gap_pattern_ok() -> bool {
+    if let Some(v) = GAP_PATTERN.with(|g| g.get()) {
+        return v;
+    }
+    let k = 4usize;
+    let t = 4 * k;
+    let v = guarded(|| {
+        let mut r = RS::new(k, ScriptRng);
+        for n in 0..t {
+            script_load(&[Intent::Below(n as u64, n as u64 + 1)]);
+            r.add(n as u64);
+        }
+        let mut posts = std::collections::HashSet::new();
+        for j in 0..k as u64 {
+            let mut c = r.clone();
+            script_load(&[Intent::Unit52(0), Intent::Unit52(unit52_of(63, 64)), Intent::Below(j, k as u64)]);
+            c.add(t as u64);
+            let (left, mm, consumed) = script_status();
+            if left != 0 || mm.is_some() || consumed != 3 || !c.reservoir().iter().any(|x| *x == t as u64) || !posts.insert(c.reservoir().clone()) {
+                return false;
+            }
+        }
+        true
+    })
+    .unwrap_or(false);
+    script_load(&[]);
+    GAP_PATTERN.with(|g| g.set(Some(v)));
+    v
+}
 impl Sut for RsSut {
     fn config(&self) -> Value {
         json!([self.r.k()])
@@ -83,7 +118,7 @@ impl Sut for RsSut {
                         // bookkeeping for the gap clause (observed acceptance, scripted unit values)
                         let t = 4 * self.k as u64;
                         let accepted = self.r.reservoir().iter().any(|x| *x == item);
-                        if !skip {
+                        if !skip && gap_pattern_ok() {
                             rec["gap"] = json!({"u": [self.gap_u.0, self.gap_u.1], "gi": self.gap_gi, "base": self.gap_base});
                         }
                         if item >= t {
@@ -266,10 +301,16 @@ pub fn dist(args: &[String]) {
                 }
             }
             let mut skip_cell = u64::MAX;
+            let mut cur_cell = u64::MAX;
+            let mut cell_posts: std::collections::HashSet<Vec<u64>> = std::collections::HashSet::new();
             for (ci, (script, words_if_accepted)) in cases.iter().enumerate() {
                 let cell = if n < t { u64::MAX - 1 } else { ci as u64 / k as u64 };
                 if cell == skip_cell {
                     continue; // the item was skipped for this cell: a single row of weight k stands for the k slot draws
+                }
+                if cell != cur_cell {
+                    cur_cell = cell;
+                    cell_posts.clear();
                 }
                 let mut c = st.clone();
                 script_load(script);
@@ -287,6 +328,13 @@ pub fn dist(args: &[String]) {
                     && if n < t { consumed <= 1 } else if accepted { consumed == *words_if_accepted && left == 0 } else { consumed == 1 && left == 2 };
                 if !pattern_ok {
                     deviation = json!({"n": n, "case": ci, "panic": r.err(), "mismatch": mm, "words": consumed, "left": left, "accepted": accepted});
+                    break 'levels;
+                }
+                // the k slot draws of one accepted cell must lead to k different reservoirs; if they do not, the code did
+                // not use the scripted slot draw as the slot (other order of draws: ScriptRng cannot see which
+                // distribution a word is wanted for) and the weights of the table would be meaningless
+                if n == t && accepted && !cell_posts.insert(c.reservoir().clone()) {
+                    deviation = json!({"n": n, "case": ci, "why": "the k slot draws of one cell do not lead to k different reservoirs", "words": consumed, "left": left, "accepted": accepted});
                     break 'levels;
                 }
                 let w = if n == t && !accepted { skip_cell = cell; k as u64 } else { 1 };
@@ -307,7 +355,7 @@ pub fn dist(args: &[String]) {
         out.put(r);
     }
     out.flush();
-    println!("STATS {}", json!({"rows": rows.len(), "states": states, "levels_complete": complete_upto, "deviation": deviation}));
+    println!("STATS {}", json!({"rows": rows.len(), "states": states, "levels_complete": complete_upto, "deviation": deviation, "gap_pattern_ok": gap_pattern_ok()}));
 }
 
 /// C05 measured clause (gross, deterministic for a given seed): inclusion counts per stream position over `runs`
